@@ -248,6 +248,24 @@ mod pin {
             k.sort();
             k
         }
+        pub fn sparql_rows_in_order(&self, q: &str) -> Result<Vec<Vec<String>>, String> {
+            let Some(db) = &self.db else { return Err("no database".into()) };
+            db.execute_sparql(q).map_err(|e| format!("err:{e}")).map(|r| {
+                r.rows
+                    .iter()
+                    .map(|row| {
+                        row.iter()
+                            .map(|v| match v {
+                                Value::String(s) => s.to_string(),
+                                Value::Null => "UNBOUND".to_string(),
+                                Value::Int64(i) => i.to_string(),
+                                other => format!("{other:?}"),
+                            })
+                            .collect()
+                    })
+                    .collect()
+            })
+        }
         pub fn sparql_rows(&self, q: &str) -> Result<Vec<Vec<String>>, String> {
             let Some(db) = &self.db else { return Err("no database".into()) };
             db.execute_sparql(q).map_err(|e| format!("err:{e}")).map(|r| {
@@ -413,6 +431,25 @@ fn sparql_rows(db: &GrafeoDB, q: &str) -> Result<Vec<Vec<String>>, String> {
     })
 }
 
+/// Rows in the order the engine returns them (ORDER BY templates).
+fn sparql_rows_in_order(db: &GrafeoDB, q: &str) -> Result<Vec<Vec<String>>, String> {
+    db.execute_sparql(q).map_err(|e| format!("err:{e}")).map(|r| {
+        r.rows
+            .iter()
+            .map(|row| {
+                row.iter()
+                    .map(|v| match v {
+                        Value::String(s) => s.to_string(),
+                        Value::Null => "UNBOUND".to_string(),
+                        Value::Int64(i) => i.to_string(),
+                        other => format!("{other:?}"),
+                    })
+                    .collect()
+            })
+            .collect()
+    })
+}
+
 /// Value a SPARQL result cell shows for a term (the engine returns lexical forms).
 fn cell(t: &Term) -> String {
     match t {
@@ -560,6 +597,30 @@ fn check_sparql(db: &GrafeoDB, twin: &pin::Twin, m: &BTreeSet<T3>, after: &str, 
         let _ = chain;
         v
     });
+    // ORDER BY / LIMIT / OFFSET. How terms of different kinds compare is the engine's choice, so
+    // the oracle is the engine's own full ordering: a LIMIT/OFFSET window of an ordered query
+    // must be exactly that window of the same query without LIMIT/OFFSET (rows that tie on all
+    // three sort keys are the same triple's row).
+    let base = "SELECT ?o ?s ?p WHERE { ?s ?p ?o } ORDER BY ?o ?s ?p";
+    if let Ok(full) = sparql_rows_in_order(db, base) {
+        for (name, suffix, lo, n) in [("order-limit", " LIMIT 2", 0usize, 2usize), ("order-limit-offset", " LIMIT 2 OFFSET 1", 1, 2), ("order-desc-limit", "", 0, 1)] {
+            let (q, want): (String, Vec<Vec<String>>) = if name == "order-desc-limit" {
+                // the maximum under DESC is the last row of the ascending order (on the first key)
+                ("SELECT ?o WHERE { ?s ?p ?o } ORDER BY DESC(?o) LIMIT 1".to_string(), full.last().map(|r| vec![vec![r[0].clone()]]).unwrap_or_default())
+            } else {
+                (format!("{base}{suffix}"), full.iter().skip(lo).take(n).cloned().collect())
+            };
+            let got = sparql_rows_in_order(db, &q);
+            if got.as_ref() == Ok(&want) {
+                continue;
+            }
+            let pinned = guarded(|| twin.sparql_rows_in_order(&q)).unwrap_or_else(|p| Err(format!("panic:{p}")));
+            let sig = if pinned == got { format!("C13 | sparql={name} | as-pinned-tree") } else { format!("C13 | sparql={name} | window-differs-from-full-order | differs-from-pinned-tree") };
+            if !out.iter().any(|(s, _)| *s == sig) {
+                out.push((sig, format!("after {after}: {q}: {got:?} vs the window {want:?} of the full order (pinned tree {pinned:?})")));
+            }
+        }
+    }
 }
 
 pub fn exec(cfg: &Config, ops: &[ROp]) -> ExecResult {
